@@ -535,7 +535,38 @@ def classes_case(ctx, index, rng: random.Random):
     rec.case([kind, closed, bins], len(bins) >= 2, cls=f"class/{kind}")
 
 
+def far_offset_case(ctx, index, rng: random.Random):
+    """Equal-width bins far from zero (time stamps around 1.7e9 in bins of 1e-4 s): every edge is within half an ulp of its grid position;
+    the binning, its static copy and its slices give the same answers about themselves."""
+    import physt
+    from physt import binnings
+
+    rec = ctx.rec
+    rec.mon("C07.audit")
+    base = rng.choice([1.7e9, 1.0e9, 4.0e8])
+    w = rng.choice([1e-4, 1e-3, 2.5e-4])
+    how = rng.choice(["class", "facade", "numpy"])
+    try:
+        with warnings.catch_warnings():
+            warnings.simplefilter("ignore")
+            if how == "class":
+                b = binnings.FixedWidthBinning(bin_width=w, bin_count=rng.randint(3, 30), min=base)
+            elif how == "facade":
+                data = base + w * np.asarray([rng.uniform(0, 20) for _ in range(30)])
+                b = physt.h1(data, "fixed_width", bin_width=w).binning
+            else:
+                data = base + np.asarray([rng.uniform(0, 1) for _ in range(30)])
+                b = physt.h1(data, rng.choice([7, 100])).binning
+    except Exception as ex:
+        rec.case(["far_offset", base, w, how], False, cls=f"far_offset/{how}/refused")
+        return
+    with attach.quiet():
+        mb.audit_binning(rec, b, op=f"far_offset/{how}", detail={"base": base, "width": w})
+    rec.case(["far_offset", base, w, how, b.bin_count], True, cls=f"far_offset/{how}")
+
+
 def run(ctx):
+    ctx.run_cases(ctx.scale(40, 200), far_offset_case, salt="faroffset")
     ctx.run_cases(ctx.scale(700, 6000), one_case, salt="rule")
     ctx.run_cases(ctx.scale(150, 1000), refusal_case, salt="refusal")
     ctx.run_cases(ctx.scale(200, 1500), classes_case, salt="classes")
